@@ -84,6 +84,42 @@ type vf01Run struct {
 	ops   []vf01Op
 	obs   []map[oid.ID]bool // garbage view of the current step, per container
 	nviol int
+	hot   [][]string // per container: addresses related to a tombstone/lock target (lazy)
+}
+
+// hotSlots: targets of the container's tombstone and lock objects together with their
+// parents, children and split-chain relatives.  Marks, deletions and revivals are biased
+// towards them so that removal actions meet objects that already carry marks, locks or
+// tombstones (and the other way round) in every order.
+func (x *vf01Run) hotSlots(ci int) []string {
+	if x.hot == nil {
+		x.hot = make([][]string, len(x.u.cnrs))
+		for cj := range x.u.cnrs {
+			set := map[oid.ID]bool{}
+			for _, a := range x.u.slots[cj] {
+				if a.target.IsZero() {
+					continue
+				}
+				t := x.u.slot(cj, a.target)
+				if t == nil || t.Kind == "ghost" {
+					continue
+				}
+				set[t.id] = true
+				if !t.par.IsZero() {
+					set[t.par] = true
+				}
+				for _, r := range x.m.relatives(cj, t.id) {
+					set[r] = true
+				}
+			}
+			for _, s := range x.u.slots[cj] { // slot order keeps the list deterministic
+				if set[s.id] {
+					x.hot[cj] = append(x.hot[cj], s.Name)
+				}
+			}
+		}
+	}
+	return x.hot[ci]
 }
 
 func (x *vf01Run) violation(view string, s *vf01Slot, want, got, why string, extra map[string]any) {
@@ -232,14 +268,32 @@ func (x *vf01Run) genOp(rng *rand.Rand, step int) vf01Op {
 	u := x.u
 	ci := rng.IntN(len(u.cnrs))
 	sl := u.slots[ci]
+	hot := x.hotSlots(ci)
 	pickSlots := func(n int) []string {
 		var res []string
 		for i := 0; i < n; i++ {
+			if len(hot) > 0 && rng.IntN(5) < 2 {
+				res = append(res, hot[rng.IntN(len(hot))])
+				continue
+			}
 			res = append(res, sl[rng.IntN(len(sl))].Name)
 		}
 		return res
 	}
 	putable := func() string {
+		if rng.IntN(6) == 0 {
+			// removal / protection of something that is there: a not yet stored tombstone or
+			// lock whose target is present
+			var c []string
+			for _, s := range sl {
+				if s.obj != nil && !s.target.IsZero() && !x.m.c[ci].stored[s.id] && x.m.present(ci, s.target) {
+					c = append(c, s.Name)
+				}
+			}
+			if len(c) > 0 {
+				return c[rng.IntN(len(c))]
+			}
+		}
 		for {
 			s := sl[rng.IntN(len(sl))]
 			if s.obj != nil {
@@ -298,7 +352,9 @@ func (x *vf01Run) exec(op vf01Op) {
 		err := db.Put(s.obj)
 		res = vf01ErrClass(err)
 		if err == nil {
-			m.applyPut(s)
+			cov, red := m.applyPut(s)
+			r.Count("parts_covered_by_tombstone_put", len(cov))
+			r.Count("parts_covered_by_removal_after_redundant_mark", red)
 		}
 		r.Seen("put_outcomes", s.Kind+":"+res)
 	case "mark":
@@ -309,7 +365,9 @@ func (x *vf01Run) exec(op vf01Op) {
 		_, err := db.MarkGarbage(x.u.cnrs[ci], ids, mk)
 		res = vf01ErrClass(err)
 		if err == nil {
-			m.applyMark(ci, ids, op.Mark == "redundant")
+			cov, red := m.applyMark(ci, ids, op.Mark == "redundant")
+			r.Count("parts_covered_by_default_mark", cov)
+			r.Count("parts_covered_by_removal_after_redundant_mark", red)
 		}
 	case "delete":
 		_, _, err := db.Delete(x.u.cnrs[ci], ids)
@@ -762,6 +820,7 @@ func (x *vf01Run) checkList(ci int, rng *rand.Rand) {
 		return
 	}
 	m, u := x.m, x.u
+	coverReported := map[*vf01Slot]bool{} // one report per address and step, not one per page size
 	for _, page := range []int{1, 2 + rng.IntN(5), 128} {
 		seen := map[oid.Address]object.Type{}
 		var cur *Cursor
@@ -817,6 +876,27 @@ func (x *vf01Run) checkList(ci int, rng *rand.Rand) {
 				must := stored && !c.gone && !t && (mk == vf01MarkNone || (mk == vf01MarkUnknown && !x.obs[cj][s.id]))
 				mustNot := !stored || c.gone || t || mk == vf01MarkDefault
 				why := fmt.Sprintf("stored=%v gone=%v tombstoned=%v mark=%d page=%d", stored, c.gone, t, mk, page)
+				// a stored part of a composite object that was tombstoned / garbage-marked as a
+				// whole is marked for removal while that action stands
+				if by, cov := m.coveredBy(cj, s.id); cov && !c.gone {
+					if !mustNot {
+						x.r.Count("list_checks_of_parts_covered_by_ancestor_removal", 1)
+						why = fmt.Sprintf("part covered by %s; stored=%v mark=%d page=%d", by, stored, mk, page)
+						if listed && coverReported[s] {
+							continue
+						}
+						if listed {
+							coverReported[s] = true
+							x.violation("ListWithCursor", s, "omitted", "listed", vf01CoverKey(by)+"; "+m.explain(cj, s.id, m.epoch, x.obs[cj]), map[string]any{"detail": why})
+							continue
+						}
+					}
+					mustNot = true
+				} else if listed && stored && !c.gone && page == 128 && m.status(cj, s.id, m.epoch, x.obs[cj], true)&vf01Avail == 0 {
+					// observation only: the point views call it removed / not found through an
+					// ancestor, listing shows it (a part that arrived after the action, or was revived)
+					x.r.Count("list_shows_part_whose_ancestor_is_removed_uncovered", 1)
+				}
 				if must && !listed {
 					x.violation("ListWithCursor", s, "listed", "omitted", why, nil)
 				}
@@ -829,6 +909,14 @@ func (x *vf01Run) checkList(ci int, rng *rand.Rand) {
 			}
 		}
 	}
+}
+
+// vf01CoverKey reduces the description of a covering action to its kind (class key).
+func vf01CoverKey(by string) string {
+	if strings.HasPrefix(by, "tombstone") {
+		return "part-of-tombstoned-ancestor"
+	}
+	return "part-of-garbage-marked-ancestor"
 }
 
 func (x *vf01Run) checkExpired(ci int, epoch uint64) {
